@@ -577,7 +577,7 @@ PROPS['C09'] = {
 }
 PROPS['C19'] = {
     'modules': ['IpcModel.Props.C19', 'IpcModel.Props.C03', 'IpcModel.Props.C09'],
-    'theorems': ['C19.C19_shape', 'C19.C19_inproc', 'C19.C19_inproc_rendezvous', 'C19.C19_refine', 'C19.C19_step', 'C19.C19_same_world', 'C19.C19_alive_is_reachability', 'C19.C19_receivers_unique', 'Refine.rel_kill',
+    'theorems': ['C19.C19_shape', 'C19.C19_inproc', 'C19.C19_inproc_rendezvous', 'C19.C19_inproc_set_ids', 'InprocSet.ids_distinct', 'C19.C19_rendezvous_same_answers', 'RegRefine.rel_step', 'C19.C19_refine', 'C19.C19_step', 'C19.C19_same_world', 'C19.C19_alive_is_reachability', 'C19.C19_receivers_unique', 'Refine.rel_kill',
                  'Refine.dropHandles_char', 'Reach.reachG_iff', 'C03.C03_iff', 'C09.C09_error', 'C09.C09_transit'],
     'builds': ['default', 'memfd', 'force-inprocess'],
     'scenarios': (lambda a: (lambda tier, seed: a(tier, seed) + [{'build': b, 'args': ['set', '--seed', str(seed + k), '--n', str((3000 if tier == 'thorough' else 200) // 2), '--tier', tier]}
